@@ -88,7 +88,12 @@ def run(ctx):
     trecs += [r for r in small if len(r["v"]) > 3][::(9 if quick else 1)]
     ctx.extra["polygons_triangulated"] = len(trecs)
     tri_eval.replay(ctx, tri_eval.build_cases(trecs, ctx.tier, ctx.seed))
-    prism_eval.replay(ctx, prism_eval.build_cases(precs, ctx.tier, ctx.seed))
+    pcases = prism_eval.build_cases(precs, ctx.tier, ctx.seed)
+    if quick:
+        # the listed finding (a point in the plane of a face of a rotated prism, known_findings.json) is exercised in every tier
+        zig = [r for r in prism_eval.emit(ctx, 8, 0, "NamedSmall", [3]) if r["poly"][:3] == [[0, 0], [2, 2], [4, 0]] and len(r["poly"]) == 8]
+        pcases += [{"rec": r, "pl": palette(8, ctx.tier)[2].to_json(), "kt": 6, "kb": 5, "inside": True} for r in zig]
+    prism_eval.replay(ctx, pcases)
     ctx.exhaustive = False
     return ctx.finish(rule=RULE, assumptions=[
         "metamorphic relation between two runs of the implementation; the exact values themselves are bound by C01-C06, C10-C14",
